@@ -154,32 +154,39 @@ class CGraph:
                 raise Exception(err_str)
 
         # print self
-        for i,f in enumerate(self.functionList[::-1]):
-            try:
-                f.__class__.pullback(f)
-            except Exception as e:
-                err_str = '\npullback of node %d failed\n\n'%(len(self.functionList) - i - 1)
-                err_str +='tried to evaluate the pullback of %s(*args) with\n'%(f.func.__name__)
-                for narg, arg in enumerate(f.args):
-                    if hasattr(arg, 'x'):
-                        err_str += 'type(arg[%d].x) = \n%s\n'%(narg, type(arg.x) )
-                        if isinstance(arg.x, algopy.UTPM):
-                            err_str += 'arg[%d].x.data.shape = \n%s\n'%(narg, arg.x.data.shape)
-                            err_str += 'arg[%d].xbar.data.shape = \n%s\n'%(narg, arg.xbar.data.shape)
+        try:
+            for i,f in enumerate(self.functionList[::-1]):
+                try:
+                    f.__class__.pullback(f)
+                except Exception as e:
+                    err_str = '\npullback of node %d failed\n\n'%(len(self.functionList) - i - 1)
+                    err_str +='tried to evaluate the pullback of %s(*args) with\n'%(f.func.__name__)
+                    for narg, arg in enumerate(f.args):
+                        if hasattr(arg, 'x'):
+                            err_str += 'type(arg[%d].x) = \n%s\n'%(narg, type(arg.x) )
+                            if isinstance(arg.x, algopy.UTPM):
+                                err_str += 'arg[%d].x.data.shape = \n%s\n'%(narg, arg.x.data.shape)
+                                err_str += 'arg[%d].xbar.data.shape = \n%s\n'%(narg, arg.xbar.data.shape)
 
-                    else:
-                        err_str += 'type(arg[%d]) = \n%s\n'%(narg, type(arg) )
+                        else:
+                            err_str += 'type(arg[%d]) = \n%s\n'%(narg, type(arg) )
 
-                err_str += '\n%s'%traceback.format_exc()
-                raise Exception(err_str)
-            # print self
+                    err_str += '\n%s'%traceback.format_exc()
+                    raise Exception(err_str)
+                # print self
 
-        # the pullback of an in-place buffer write restores the overwritten
-        # contents (STEP 3 of Function.pullback); redo the writes in recording
-        # order so that the forward values are intact again, e.g. for a
-        # second reverse sweep after the same forward evaluation
-        for f in self.functionList:
-            if is_set(f.setitem):
+        finally:
+            # the pullback of an in-place buffer write restores the overwritten
+            # contents (STEP 3 of Function.pullback).  Put the buffers back into
+            # the state the forward evaluation left them in, so that the forward
+            # values are intact for the next reverse sweep -- also when this
+            # sweep raised and rolled back only some of the writes: complete the
+            # roll-back (reverse recording order), then redo the writes
+            # (recording order)
+            writes = [f for f in self.functionList if is_set(f.setitem)]
+            for f in writes[::-1]:
+                f.args[0].x[f.setitem[0]] = f.setitem[1]
+            for f in writes:
                 f.args[0].x[f.setitem[0]] = f.args[2].x
 
     def function(self, x_list):
